@@ -118,3 +118,26 @@ Example ex_conforming :
   refined_sides sn [1; 2; 3; 4] = [1] /\ refined_sides sn [3; 2; 7] = [0] /\
   gside sn [3; 2; 7] 0 = map gswap (rev (gside sn [1; 2; 3; 4] 1)).
 Proof. cbv. auto. Qed.
+
+(** ** the dict sidenodes as a finite map.  create_mid_node stores the new node under
+      nodenames = frozenset((node1.name, node2.name));  sidenodes[nodenames] = self.nodelist[-1]
+    and refine() reads it back with  frozenset(...) in sidenodes  /  sidenodes[frozenset(...)]:
+    keys are UNORDERED pairs, modelled as (min, max). *)
+Definition smap := list ((nat * nat) * nat).
+Definition pair_eqb (a b : nat * nat) : bool := Nat.eqb (fst a) (fst b) && Nat.eqb (snd a) (snd b).
+Fixpoint slookup (k : nat * nat) (m : smap) : option nat :=
+  match m with [] => None | (k', v) :: r => if pair_eqb k k' then Some v else slookup k r end.
+Definition sn_of (m : smap) : nat * nat -> bool := fun k => match slookup k m with Some _ => true | None => false end.
+Definition create_mid_node (a b newname : nat) (m : smap) : smap := (upair a b, newname) :: m.
+Lemma pair_eqb_refl k : pair_eqb k k = true.
+Proof. unfold pair_eqb. now rewrite !Nat.eqb_refl. Qed.
+(** whichever way round the two corners are given, the node created for a side is the node found *)
+Lemma create_then_lookup a b a' b' n m :
+  upair a b = upair a' b' -> slookup (upair a' b') (create_mid_node a b n m) = Some n.
+Proof. intro E. unfold create_mid_node. cbn [slookup]. rewrite <- E, pair_eqb_refl. reflexivity. Qed.
+Lemma lookup_unordered a b m : slookup (upair a b) m = slookup (upair b a) m.
+Proof. now rewrite upair_comm. Qed.
+Example ex_smap :
+  let m := create_mid_node 7 3 100 (create_mid_node 3 9 101 []) in
+  slookup (upair 3 7) m = Some 100 /\ slookup (upair 9 3) m = Some 101 /\ sn_of m (upair 7 9) = false.
+Proof. cbv. auto. Qed.
